@@ -26,6 +26,9 @@ void vp_harness(void) {
 	bidib_track_state.points_board = (GArray *)&v_pb; bidib_track_state.signals_board = (GArray *)&v_sb; bidib_track_state.points_dcc = (GArray *)&v_pd; bidib_track_state.signals_dcc = (GArray *)&v_sd;
 	bidib_track_state.peripherals = (GArray *)&v_pe; bidib_track_state.segments = (GArray *)&v_sg; bidib_track_state.reversers = (GArray *)&v_rv; bidib_track_state.trains = (GArray *)&v_tr;
 	bidib_track_state.boosters = (GArray *)&v_bo; bidib_track_state.track_outputs = (GArray *)&v_to;
+	/* aspect ids as feedback leaves them: NULL or an own heap string - a reset must release them (C16: "releases all memory", finding D29) */
+	for (int k = 0; k < N; k++) { _Bool h; char *x = malloc(2); __CPROVER_assume(x != NULL); if (h) { pb[k].data.state_id = x; sb[k].data.state_id = NULL; } else { pb[k].data.state_id = NULL; sb[k].data.state_id = x; }
+		char *y = malloc(2), *z = malloc(2), *w = malloc(2), *v = malloc(2); __CPROVER_assume(y != NULL && z != NULL && w != NULL && v != NULL); pd[k].data.state_id = y; sd[k].data.state_id = z; pe[k].data.state_id = w; rv[k].data.state_id = v; }
 	for (int k = 0; k < N; k++) { guint na, nf; __CPROVER_assume(na <= 2 && nf <= 2); mk(&v_ad[k], ad[k], na, sizeof ad[0][0]); sg[k].dcc_addresses = (GArray *)&v_ad[k]; mk(&v_fn[k], fn[k], nf, sizeof fn[0][0]); tr[k].peripherals = (GArray *)&v_fn[k]; }
 	VP_COVER(v_ad[1].len == 2 && !sg[1].occupied && sg[1].power_consumption.known); VP_COVER(v_fn[0].len == 2);
 	bidib_state_reset();
